@@ -174,7 +174,7 @@ func checkC15(c *Ctx, r *Report) {
 
 	// (2) lineariser table
 	r.Rule("linearisers", "each linearisation code maps to the specified function", 11)
-	tbl, g := ir.GlobalInit("pkg/ipmi", "linearisationLinearisers")
+	tbl, g := ir.globalByType("pkg/ipmi", "linearisationLinearisers", "map["+modPath+"/pkg/ipmi.Linearisation]"+modPath+"/pkg/ipmi.Lineariser")
 	if g == nil {
 		// locate by type: map[Linearisation]Lineariser
 		r.Lost("ipmi lineariser table")
@@ -200,7 +200,7 @@ func checkC15(c *Ctx, r *Report) {
 
 	// (3) analog data format parsers
 	r.Rule("analog-parsers", "unsigned → zero-extension; 1's complement → complement.Ones; 2's complement → sign-extension of the byte", 3)
-	ptbl, pg := ir.GlobalInit("pkg/ipmi", "analogDataFormatParsers")
+	ptbl, pg := ir.globalByType("pkg/ipmi", "analogDataFormatParsers", "map["+modPath+"/pkg/ipmi.AnalogDataFormat]"+modPath+"/pkg/ipmi.AnalogDataFormatParser")
 	if pg == nil {
 		r.Lost("ipmi analog data format parser table")
 	} else {
@@ -482,8 +482,26 @@ func checkSensorReaders(c *Ctx, r *Report) {
 
 	// Read methods
 	r.Rule("read-flags", "Read converts the raw byte only after ReadingUnavailable tested false (else the reading-unavailable sentinel) and then ScanningEnabled tested true (else the scanning-disabled sentinel); the raw byte goes through the record's parser and factors; the linearised reader applies its lineariser to the linear result", 4)
-	lin := c.Method("", "linearSensorReader", "Read")
-	lsd := c.Method("", "linearisedSensorReader", "Read")
+	// the two reader types are whatever implements SensorReader: the linearised one is the
+	// one that holds a lineariser
+	var lin, lsd *ssa.Function
+	for _, nt := range c.implementors("", "", "SensorReader", "Read") {
+		st, ok := nt.Underlying().(*types.Struct)
+		if !ok {
+			continue
+		}
+		holdsLineariser := false
+		for i := 0; i < st.NumFields(); i++ {
+			if types.TypeString(st.Field(i).Type(), nil) == modPath+"/pkg/ipmi.Lineariser" {
+				holdsLineariser = true
+			}
+		}
+		if holdsLineariser && lsd == nil {
+			lsd = c.MethodOf(nt, "Read")
+		} else if !holdsLineariser && lin == nil {
+			lin = c.MethodOf(nt, "Read")
+		}
+	}
 	if lin == nil || lsd == nil {
 		r.Lost("sensor reader Read methods")
 		return
@@ -503,9 +521,9 @@ func checkSensorReaders(c *Ctx, r *Report) {
 		}
 		if ld, ok := cond.(*ssa.UnOp); ok && ld.Op == token.MUL {
 			switch apOf(ld.X).SelString() {
-			case "readingCmd.Rsp.ReadingUnavailable":
+			case fReading+".Rsp.ReadingUnavailable":
 				unavail = ifi
-			case "readingCmd.Rsp.ScanningEnabled":
+			case fReading+".Rsp.ScanningEnabled":
 				scanning = ifi
 			}
 		}
@@ -581,7 +599,7 @@ func checkSensorReaders(c *Ctx, r *Report) {
 		// data flow: ConvertReading(parser.Parse(Rsp.Reading)) with factors of the reader
 		okFlow := false
 		if pc, ok := conv.Call.Args[1].(*ssa.Call); ok && pc.Call.IsInvoke() && pc.Call.Method.Name() == "Parse" {
-			if ld, ok := pc.Call.Args[0].(*ssa.UnOp); ok && apOf(ld.X).SelString() == "readingCmd.Rsp.Reading" {
+			if ld, ok := pc.Call.Args[0].(*ssa.UnOp); ok && apOf(ld.X).SelString() == fReading+".Rsp.Reading" {
 				if apOf(pc.Call.Value).SelString() == "parser" && apOf(conv.Call.Args[0]).SelString() == "factors" {
 					okFlow = true
 				}
